@@ -326,6 +326,7 @@ pub fn generate(rng: &mut Rng, max_ops: usize) -> Script {
     let mut readers: Vec<usize> = Vec::new(); // script indices of successful OpenReader
     let mut writers: Vec<usize> = Vec::new();
     let mut open_outputs: Vec<(usize, String)> = Vec::new(); // writers currently open on a scratch file
+    let mut open_appenders: Vec<(usize, String)> = Vec::new(); // those of them that append
     let mut closed_writers: Vec<usize> = Vec::new();
     let legacy = rng.chance(1, 3);
     while ops.len() < count {
@@ -363,16 +364,25 @@ pub fn generate(rng: &mut Rng, max_ops: usize) -> Script {
                     | 1 => PathSpec::MissingDir,
                     | 2 => PathSpec::DevFull,
                     | 3 => PathSpec::DevNull,
-                    | _ if open_outputs.iter().any(|(_, n)| *n == name) => PathSpec::DevNull,
+                    // a file that is open for writing may get further writers only if all of them
+                    // append (every write of an append writer lands at the then end of the file, so
+                    // the model needs no per-handle position); anything else goes to /dev/null
                     | _ => PathSpec::Out(name.clone()),
                 };
+                let shared = matches!(&path, PathSpec::Out(n) if open_outputs.iter().any(|(_, o)| o == n));
+                let all_append = matches!(&path, PathSpec::Out(n) if open_outputs.iter().filter(|(_, o)| o == n).all(|(w, _)| open_appenders.iter().any(|(a, _)| a == w)));
+                let path = if shared && !all_append { PathSpec::DevNull } else { path };
                 if matches!(path, PathSpec::Out(_) | PathSpec::DevFull | PathSpec::DevNull) {
                     writers.push(index);
                 }
+                let append = if shared { true } else { rng.chance(1, 2) };
                 if let PathSpec::Out(name) = &path {
                     open_outputs.push((index, name.clone()));
+                    if append {
+                        open_appenders.push((index, name.clone()));
+                    }
                 }
-                if rng.chance(1, 2) { Opn::CreateWriter { path } } else { Opn::AppendWriter { path } }
+                if append { Opn::AppendWriter { path } } else { Opn::CreateWriter { path } }
             }
             | 4 | 5 => {
                 let count = if rng.chance(1, 10) { -1 - rng.below(3) as i64 } else { *rng.pick(&[0i64, 1, 2, 3, 5, 8, 100]) };
